@@ -120,7 +120,7 @@ PROPS["C07"] = {
     "thorough_runs": 225000,
     "quick_wall": 240,
     "thorough_wall": 2400,
-    "params": {"syscall_p": 0.05, "isa_weights": [75, 15, 10], "scope_session_p": 0.85, "main_p": 0.4, "constraints_p": 0.1, "scope_insfn_p": 0.15},
+    "params": {"syscall_p": 0.05, "isa_weights": [75, 15, 10], "scope_session_p": 0.85, "main_p": 0.4, "constraints_p": 0.1, "scope_insfn_p": 0.15, "nameless_p": 0.15},
     "rule": "seeded scenarios whose sessions register 1-4 scope-based insertions (AllBlocksScope / SingleBlockScope / "
     "AllFunctionsScope x ENTRY/EXIT/ANYWHERE x literal / regex / MAIN_NAME / ENTRYPOINT_NAME filters) plus insert_at at specific "
     "places, through a bare RewritingContext or a PassManager with 1-3 passes, with and without function tables; instrumented "
